@@ -15,7 +15,7 @@
    witness (loop/../ln_out/secret read a file outside the root).  The repaired resolver (canonical_path)
    is what `resolve` models. *)
 From Coq Require Import ZArith List Bool.
-Require Import DS.Model.Path DS.Gen.GenPath DS.Proofs.PathProofs DS.Proofs.KernelAgree.
+Require Import DS.Model.Path DS.Gen.GenPath DS.Proofs.PathProofs DS.Proofs.KernelAgree DS.Proofs.SessionProofs DS.Proofs.HandleState.
 Require Import DS.Model.Str DS.Gen.GenS3 DS.Proofs.S3KeyProofs.
 Import ListNotations.
 Open Scope Z_scope.
@@ -149,6 +149,71 @@ Theorem C17_history_stateless : forall (d : nat) (cwd : loc) (dirs : list comp) 
 Proof. exact run_history_stateless. Qed.
 Print Assumptions C17_history_stateless.
 
+(* Sessions on one long-lived handle over ANY trees: the string of a step is a literal or a NAME AN EARLIER LISTING OF THE SAME
+   HANDLE RETURNED (SListed i k) -- the collector sweeping the candidates it listed, a caller registering a file it saw in data/.
+   os.walk reports a symlink to a file among a directory's files, so a listing hands out names that lead out of the root.
+   (1) The step law: the outcome of a step is run_entry of ITS OWN tree on the string its argument denotes, plus the names it
+   returns; nothing else of the past enters -- a handle keeps no record of what it listed, probed or read. *)
+Theorem C17_session_stateless : forall (d kf : nat) (cwd : loc) (dirs : list comp) (base : pstr) (pre : list sstep) (s : sstep) (post : list sstep),
+  nth_error (run_session d kf cwd dirs base (pre ++ s :: post)) (length pre)
+  = Some (session_out d kf cwd dirs base (run_session d kf cwd dirs base pre) s).
+Proof. exact session_step_at. Qed.
+Print Assumptions C17_session_stateless.
+
+(* (2) Every step of every session that returns touches only link-free locations under the canonical root of the tree current at
+   that step, wherever its string came from. *)
+Theorem C17_session_inside : forall (d kf : nat) (cwd : loc) (base : pstr) (steps : list sstep) (i : nat)
+                                    (t : tree) (ep : entry) (g : guard) (a : sarg) (accs : list access) (ns : list pstr),
+  nth_error steps i = Some (t, ep, a) ->
+  In (ep, g) gen_entry_guards ->
+  nth_error (run_session d kf cwd gen_table_dirs base steps) i = Some (Some (Ok accs), ns) ->
+  exists p rb q, sderef (run_session d kf cwd gen_table_dirs base (firstn i steps)) a = Some p
+    /\ realpath d t cwd base = Ok rb
+    /\ guard_result d t cwd gen_table_dirs base rb g p = Ok q
+    /\ Forall (fun x => (snd x = q \/ snd x = parent q) /\ touch_ok t rb x) accs.
+Proof. exact session_inside. Qed.
+Print Assumptions C17_session_inside.
+
+(* (3) A step whose string is a LISTED name that the kernel walks to a location outside the canonical root -- a file symlink
+   inside the root pointing out, directly or through further links -- is refused with the Security error by EVERY entry point
+   (read, open, size, mtime, exists, write, delete, lock, the parquet read and write paths): having been listed earns a name nothing. *)
+Theorem C17_session_listed_name_rejected : forall (d kf : nat) (cwd : loc) (dirs : list comp) (base : pstr) (steps : list sstep) (j : nat)
+                                                  (t : tree) (ep : entry) (i k : nat) (r : pstr) (kf' : nat) (l rb : loc),
+  nth_error steps j = Some (t, ep, SListed i k) ->
+  sderef (run_session d kf cwd dirs base (firstn j steps)) (SListed i k) = Some r ->
+  (count_links t <= d)%nat ->
+  kwalk kf' t [] (tl (absolutize cwd (join_for_resolve base r))) = Ok l ->
+  realpath d t cwd base = Ok rb -> is_prefix rb l = false ->
+  exists ns, nth_error (run_session d kf cwd dirs base steps) j = Some (Some (Err Security), ns).
+Proof. exact session_listed_name_rejected. Qed.
+Print Assumptions C17_session_listed_name_rejected.
+
+(* ... in its simplest form: one listing, then one use of a returned name, same arrangement. *)
+Theorem C17_listed_name_rejected : forall (d kf : nat) (t : tree) (cwd : loc) (dirs : list comp) (base prefix : pstr) (rs : list pstr) (r : pstr)
+                                          (ep : entry) (kf' : nat) (l rb : loc),
+  list_files d kf t cwd base prefix = Ok rs -> In r rs ->
+  (count_links t <= d)%nat ->
+  kwalk kf' t [] (tl (absolutize cwd (join_for_resolve base r))) = Ok l ->
+  realpath d t cwd base = Ok rb -> is_prefix rb l = false ->
+  run_entry d t cwd dirs base ep r = Err Security.
+Proof. exact listed_name_rejected. Qed.
+Print Assumptions C17_listed_name_rejected.
+
+(* Sessions extend histories: with literal strings only, a session is exactly a history. *)
+Theorem C17_session_of_literals_is_history : forall (d kf : nat) (cwd : loc) (dirs : list comp) (base : pstr) (steps : list hstep),
+  map fst (run_session d kf cwd dirs base (map (fun s : hstep => let '(t, ep, p) := s in (t, ep, SLit p)) steps))
+  = map Some (run_history d cwd dirs base steps).
+Proof. exact session_of_literals_is_history. Qed.
+Print Assumptions C17_session_of_literals_is_history.
+
+(* Why the model's handle is its base string and nothing else -- over the tables REGENERATED FROM THE SOURCE on every run
+   (Gen/GenPath.v): every attribute of self that a path guard of DataFileManager or any method of LocalStorageBackend loads is set
+   up at construction and is stored into by NO method afterwards (assignment, item assignment / deletion, mutating call). *)
+Theorem C17_handle_state_fixed_at_construction : forall c m f : String.string, In (c, m, f) gen_guard_reads ->
+  In (c, f) gen_handle_fields /\ forall m' : String.string, ~ In (c, m', f) gen_handle_writes.
+Proof. exact guard_state_fixed_at_construction. Qed.
+Print Assumptions C17_handle_state_fixed_at_construction.
+
 (* The object-store backend.  Its root is a KEY PREFIX and keys are opaque strings: over the key mapping regenerated
    from S3StorageBackend._get_s3_key / list_files on every run (Gen/GenS3.v), for EVERY path string -- '..', '.',
    '//', absolute, sibling-prefix names included -- the key of a request is the configured prefix, a '/', and the bytes
@@ -205,6 +270,41 @@ Example C17_history_nonvacuous :
   = [ Ok [(ARead, [10; 11; 3; 18])]; Err Security; Ok [(ARead, [10; 11; 3; 18])] ].
 Proof. vm_compute. reflexivity. Qed.
 
+(* file links inside the root: 22 "imported": /w/tbl/data/imported -> /w/out/secret (absolute, outward);
+   23 "chain": /w/tbl/data/chain -> imported (inside link to the outward link);  24 "inlink": /w/tbl/data/inlink -> f (inward) *)
+Definition ex_tree_fl : tree :=
+  [ ([10], Dir); ([10; 11], Dir); ([10; 11; 3], Dir); ([10; 11; 3; 18], File);
+    ([10; 11; 3; 22], Link [0; 10; 13; 14]); ([10; 11; 3; 23], Link [22]); ([10; 11; 3; 24], Link [18]);
+    ([10; 13], Dir); ([10; 13; 14], File); ([10; 19], Link [11]) ].
+
+(* A handle that remembers what it listed and skips the boundary check for those names (Model/Path.v resolve_memo -- NOT the library's
+   behaviour) is refuted by this tree: after a listing of data/, "data/imported" is answered with the link's own location, the kernel
+   follows it to /w/out/secret outside the root /w/tbl; the library's resolver refuses the same string. *)
+Theorem C17_memoising_handle_refuted :
+  let m := memo_after_listing [] 5 20 ex_tree_fl ex_cwd ex_base [3] in
+  resolve_memo m 5 ex_tree_fl ex_cwd ex_base [3; 22] = Ok [10; 11; 3; 22]
+  /\ kwalk 20 ex_tree_fl [] [10; 11; 3; 22] = Ok [10; 13; 14]
+  /\ is_prefix [10; 11] [10; 13; 14] = false
+  /\ resolve 5 ex_tree_fl ex_cwd ex_base [3; 22] = Err Security.
+Proof. vm_compute. repeat split. Qed.
+Print Assumptions C17_memoising_handle_refuted.
+
+(* a session: list data/ (four names, three of them links), then use every listed name; the outward link, the chain to it are
+   refused by every entry point tried, the inward link resolves to its target, a dangling reference executes nothing *)
+Example C17_session_nonvacuous :
+  run_session 5 20 ex_cwd gen_table_dirs ex_base_link
+    [ (ex_tree_fl, EpList, SLit [3]);
+      (ex_tree_fl, EpRead, SListed 0 0); (ex_tree_fl, EpRead, SListed 0 1); (ex_tree_fl, EpParquetSource, SListed 0 1);
+      (ex_tree_fl, EpSize, SListed 0 2); (ex_tree_fl, EpDelete, SListed 0 3); (ex_tree_fl, EpWrite, SListed 0 1);
+      (ex_tree_fl, EpRead, SListed 0 9); (ex_tree_fl, EpRead, SListed 5 0) ]
+  = [ (Some (Ok [(AStat, [10; 11; 3]); (AList, [10; 11; 3])]), [[3; 18]; [3; 22]; [3; 23]; [3; 24]]);
+      (Some (Ok [(ARead, [10; 11; 3; 18])]), []); (Some (Err Security), []); (Some (Err Security), []);
+      (Some (Err Security), []); (Some (Ok [(AStat, [10; 11; 3; 18]); (ARemove, [10; 11; 3; 18])]), []); (Some (Err Security), []);
+      (None, []); (None, []) ]
+  /\ (count_links ex_tree_fl <= 5)%nat
+  /\ kwalk 20 ex_tree_fl [] (tl (absolutize ex_cwd (join_for_resolve ex_base_link [3; 23]))) = Ok [10; 13; 14].
+Proof. vm_compute. repeat split; auto 10. Qed.
+
 Example C17_nonvacuous :
   (count_links ex_tree <= 5)%nat
   (* accepted: through an inside link, Iceberg-style, through the symlinked root spelled relatively *)
@@ -238,3 +338,8 @@ Example C17_s3_nonvacuous :
   /\ gen_list_prefix (lit "wh/t"%string) (lit "../t2"%string) = lit "wh/t/../t2/"%string.
 Proof. vm_compute. repeat split. Qed.
 
+(* non-vacuity of the handle-state theorem: the guards do read handle state (the base string, the storage object) *)
+Example C17_handle_state_nonvacuous :
+  In ("LocalStorageBackend"%string, "_resolve_path"%string, "base_path"%string) gen_guard_reads
+  /\ In ("DataFileManager"%string, "_get_arrow_path"%string, "storage"%string) gen_guard_reads.
+Proof. vm_compute. repeat split; auto 10. Qed.
